@@ -585,6 +585,16 @@ func findLuaShared(l *tx.Loaded) {
 			}
 		}
 	}
+	// the process's standard streams: package-level variables of package os that every runtime's io library wraps
+	for _, sp := range l.Prog.AllPackages() {
+		if sp.Pkg.Path() == "os" {
+			for _, n := range []string{"Stdin", "Stdout", "Stderr"} {
+				if g, ok := sp.Members[n].(*ssa.Global); ok {
+					luaShared[g] = "process-wide standard stream *os.File"
+				}
+			}
+		}
+	}
 	for _, sp := range l.Prog.AllPackages() {
 		if !strings.HasPrefix(sp.Pkg.Path(), tx.Module) {
 			continue
@@ -618,6 +628,32 @@ func invokeTargets(c *ssa.CallCommon) []*ssa.Function {
 		}
 	}
 	invokeMemo[c.Method] = out
+	return out
+}
+
+// osFileCloseCallers: module functions (outside init) that call (*os.File).Close — the only operation on a wrapped
+// standard stream that would affect other runtimes; compared with translate/globals/close_callers.txt by the check.
+func osFileCloseCallers(fns []*ssa.Function) []string {
+	set := map[string]bool{}
+	for _, fn := range fns {
+		if !tx.InModule(fn) || isInit(fn) {
+			continue
+		}
+		for _, b := range fn.Blocks {
+			for _, ins := range b.Instrs {
+				if ci, ok := ins.(ssa.CallInstruction); ok {
+					if cal := ci.Common().StaticCallee(); cal != nil && cal.String() == "(*os.File).Close" {
+						set[fn.String()] = true
+					}
+				}
+			}
+		}
+	}
+	out := []string{}
+	for k := range set {
+		out = append(out, k)
+	}
+	sort.Strings(out)
 	return out
 }
 
@@ -811,7 +847,7 @@ func main() {
 		}
 		for v, how := range s.wr {
 			r := rows[v]
-			if r == nil && !(how == "store" || strings.HasPrefix(how, "call ")) {
+			if r == nil && !(how == "store" || strings.HasPrefix(how, "call ") || strings.HasPrefix(how, "shared mutable Lua object")) {
 				// write-through rows are kept for the module's own variables only: objects the Go standard
 				// library hands out (os.Stdin, crypto/rand.Reader, error values) are outside the table
 				continue
@@ -974,7 +1010,7 @@ func main() {
 		}
 	}
 	if *jout != "" {
-		data, _ := json.MarshalIndent(map[string]interface{}{"rows": list, "allow_unused": unusedAllow, "lua_shared_candidates": luaSharedNames(), "packages": len(allv), "vars_in_scopes": nall,
+		data, _ := json.MarshalIndent(map[string]interface{}{"rows": list, "allow_unused": unusedAllow, "lua_shared_candidates": luaSharedNames(), "os_file_close_callers": osFileCloseCallers(fns), "packages": len(allv), "vars_in_scopes": nall,
 			"total_s": time.Since(t0).Seconds()}, "", " ")
 		os.WriteFile(*jout, data, 0o644)
 	}
